@@ -265,54 +265,79 @@ def job_gradient(jc):
 # ---------------------------------------------------------------- K4 ufo colr layers
 
 
+UFO_PALETTE = [Color(0, 0, 0, 1.0), Color(255, 0, 0, 1.0), Color(0, 0, 255, 1.0), Color(10, 20, 30, 1.0)]
+UFO_NAMES = ["a1", "a2", "o0", "ga", "x0", "y0", "x1", "y1", "x2", "y2"] + [f"t{i}" for i in range(6)]
+
+
+def _ufo_layers_case(v):
+    """v(name) -> number: the three layers the job runs through _ufo_colr_layers"""
+    a1, a2 = v("a1"), v("a2")
+    lin = P.PaintLinearGradient(stops=(P.ColorStop(v("o0"), Color(255, 0, 0, a1)), P.ColorStop(1.0, Color(0, 0, 255, 0.5))), extend=P.Extend.REPEAT,
+                                p0=Point(v("x0"), v("y0")), p1=Point(v("x1"), v("y1")), p2=Point(v("x2"), v("y2")))
+    return (
+        P.PaintGlyph(glyph="g0", paint=P.PaintSolid(Color(10, 20, 30, a2))),
+        P.PaintTransform(transform=tuple(v(f"t{i}") for i in range(6)), paint=P.PaintGlyph(glyph="g1", paint=lin)),
+        P.PaintComposite(mode=P.CompositeMode.SRC_IN, source=P.PaintColrLayers((P.PaintGlyph(glyph="g2", paint=P.PaintSolid(Color.current_color(alpha=a1))),
+                                                                                 P.PaintGlyph(glyph="g3", paint=P.PaintSolid(Color(255, 0, 0, 1.0))))),
+                         backdrop=P.PaintSolid(Color(0, 0, 0, v("ga")))),
+    )
+
+
+def _ufo_layers_props(layers, d, eq, B):
+    """[(what, truth)] with eq(a, b) / B(bool) symbolic (job) or concrete (replay)"""
+    L = d["Layers"]
+    ok = d["Format"] == 1 and len(L) == 3 and [L[0]["Glyph"], L[1]["Paint"]["Glyph"]] == ["g0", "g1"]
+    out = [("three layers in input order", B(ok))]
+    if not ok:
+        return out
+    s0 = L[0]["Paint"]
+    out += [("solid: palette index of the opaque colour", B(s0["PaletteIndex"] == 3)), ("solid: alpha in the paint", eq(s0["Alpha"], layers[0].paint.color.alpha))]
+    t = L[1]
+    out += [("PaintTransform format", B(t["Format"] == 12))] + [(f"transform[{k}] copied", eq(a, b)) for k, (a, b) in enumerate(zip(t["Transform"], layers[1].transform))]
+    g = t["Paint"]["Paint"]
+    lin = layers[1].paint.paint
+    out += [("linear gradient: format, extend, stop palette indices", B(g["Format"] == 4 and g["ColorLine"]["Extend"] == "repeat" and [s["PaletteIndex"] for s in g["ColorLine"]["ColorStop"]] == [1, 2])),
+            ("stop 0 alpha", eq(g["ColorLine"]["ColorStop"][0]["Alpha"], lin.stops[0].color.alpha)), ("stop 1 alpha", eq(g["ColorLine"]["ColorStop"][1]["Alpha"], 0.5)),
+            ("stop 0 offset", eq(g["ColorLine"]["ColorStop"][0]["StopOffset"], lin.stops[0].stopOffset))]
+    for k, val in (("x0", lin.p0[0]), ("y0", lin.p0[1]), ("x1", lin.p1[0]), ("y1", lin.p1[1]), ("x2", lin.p2[0]), ("y2", lin.p2[1])):
+        out.append((f"gradient {k} copied", eq(g[k], val)))
+    c = L[2]
+    src = c["SourcePaint"]["Layers"]
+    out += [("composite: mode and source layer order", B(c["Format"] == 32 and c["CompositeMode"] == "src_in" and [x["Glyph"] for x in src] == ["g2", "g3"])),
+            ("currentColor -> 0xFFFF; other palette indices", B(src[0]["Paint"]["PaletteIndex"] == 0xFFFF and src[1]["Paint"]["PaletteIndex"] == 1 and c["BackdropPaint"]["PaletteIndex"] == 0)),
+            ("group alpha", eq(c["BackdropPaint"]["Alpha"], layers[2].backdrop.color.alpha)), ("currentColor alpha", eq(src[0]["Paint"]["Alpha"], layers[2].source.layers[0].paint.color.alpha))]
+    return out
+
+
+def replay_ufo_layers(inp):
+    layers = _ufo_layers_case(lambda n: float(inp.get(n, 0.25)))
+    cg = type("CG", (), {"painted_layers": layers})()
+    try:
+        d = WF._ufo_colr_layers(1, UFO_PALETTE, cg)
+    except Exception as e:
+        return {"raised": repr(e)}
+    bad = [what for what, truth in _ufo_layers_props(layers, d, lambda a, b: abs(float(a) - float(b)) < 1e-12, bool) if not truth]
+    return {"failed": bad, "ufo paint": repr(d)[:600]} if bad else None
+
+
 def job_ufo_layers(jc):
     jc.encode(WF._ufo_colr_layers, P.PaintGlyph.to_ufo_paint, P.PaintSolid.to_ufo_paint, P.PaintLinearGradient.to_ufo_paint, P.PaintRadialGradient.to_ufo_paint,
               P.PaintTransform.to_ufo_paint, P.PaintComposite.to_ufo_paint, P.PaintColrLayers.to_ufo_paint)
-    palette = [Color(0, 0, 0, 1.0), Color(255, 0, 0, 1.0), Color(0, 0, 255, 1.0), Color(10, 20, 30, 1.0)]
-    inp = {}
+    inp = {n: core.SymNum(z3.Real(n)) for n in UFO_NAMES}
 
     def body():
-        a1, a2 = core.real("a1", 0, 1), core.real("a2", 0, 1)
-        lin = P.PaintLinearGradient(stops=(P.ColorStop(core.real("o0", 0, 1), Color(255, 0, 0, a1)), P.ColorStop(1.0, Color(0, 0, 255, 0.5))), extend=P.Extend.REPEAT,
-                                    p0=Point(core.real("x0"), core.real("y0")), p1=Point(core.real("x1"), core.real("y1")), p2=Point(core.real("x2"), core.real("y2")))
-        layers = (
-            P.PaintGlyph(glyph="g0", paint=P.PaintSolid(Color(10, 20, 30, a2))),
-            P.PaintTransform(transform=tuple(core.real(f"t{i}") for i in range(6)), paint=P.PaintGlyph(glyph="g1", paint=lin)),
-            P.PaintComposite(mode=P.CompositeMode.SRC_IN, source=P.PaintColrLayers((P.PaintGlyph(glyph="g2", paint=P.PaintSolid(Color.current_color(alpha=a1))),
-                                                                                     P.PaintGlyph(glyph="g3", paint=P.PaintSolid(Color(255, 0, 0, 1.0))))),
-                             backdrop=P.PaintSolid(Color(0, 0, 0, core.real("ga", 0, 1)))),
-        )
+        layers = _ufo_layers_case(lambda n: core.real(n, 0, 1) if n in ("a1", "a2", "o0", "ga") else core.real(n))
         cg = type("CG", (), {"painted_layers": layers})()
-        return layers, WF._ufo_colr_layers(1, palette, cg)
+        return layers, WF._ufo_colr_layers(1, UFO_PALETTE, cg)
 
     results = jc.explore(body)
     for r in results:
-        if r.exc is not None:
-            jc.inconclusive.append(f"_ufo_colr_layers raised {r.exc!r}")
+        if not jc.no_exception(r, inp, replay_ufo_layers, "C01:ufo_layers:raises"):
             continue
         layers, d = r.value
         jc.reach(r, "ok")
-        L = d["Layers"]
-        eq = lambda a, b: core.as_term(a) == core.as_term(b)
-        ok = d["Format"] == 1 and len(L) == 3 and [L[0]["Glyph"], L[1]["Paint"]["Glyph"]] == ["g0", "g1"]
-        conj = [z3.BoolVal(ok)]
-        if ok:
-            s0 = L[0]["Paint"]
-            conj += [z3.BoolVal(s0["PaletteIndex"] == 3), eq(s0["Alpha"], layers[0].paint.color.alpha)]
-            t = L[1]
-            conj += [z3.BoolVal(t["Format"] == 12), z3.And(*[eq(a, b) for a, b in zip(t["Transform"], layers[1].transform)])]
-            g = t["Paint"]["Paint"]
-            lin = layers[1].paint.paint
-            conj += [z3.BoolVal(g["Format"] == 4 and g["ColorLine"]["Extend"] == "repeat" and [s["PaletteIndex"] for s in g["ColorLine"]["ColorStop"]] == [1, 2])]
-            conj += [eq(g["ColorLine"]["ColorStop"][0]["Alpha"], lin.stops[0].color.alpha), eq(g["ColorLine"]["ColorStop"][1]["Alpha"], 0.5), eq(g["ColorLine"]["ColorStop"][0]["StopOffset"], lin.stops[0].stopOffset)]
-            for k, v in (("x0", lin.p0[0]), ("y0", lin.p0[1]), ("x1", lin.p1[0]), ("y1", lin.p1[1]), ("x2", lin.p2[0]), ("y2", lin.p2[1])):
-                conj.append(eq(g[k], v))
-            c = L[2]
-            src = c["SourcePaint"]["Layers"]
-            conj += [z3.BoolVal(c["Format"] == 32 and c["CompositeMode"] == "src_in" and [x["Glyph"] for x in src] == ["g2", "g3"]),
-                     z3.BoolVal(src[0]["Paint"]["PaletteIndex"] == 0xFFFF and src[1]["Paint"]["PaletteIndex"] == 1 and c["BackdropPaint"]["PaletteIndex"] == 0),
-                     eq(c["BackdropPaint"]["Alpha"], layers[2].backdrop.color.alpha), eq(src[0]["Paint"]["Alpha"], layers[2].source.layers[0].paint.color.alpha)]
-        jc.prove(r, z3.And(*conj), "ufo COLR layers: input order, palette index of the opaque colour, alpha in the paint, currentColor -> 0xFFFF, geometry and transform copied", inp, None, key="C01:ufo_layers")
+        props = _ufo_layers_props(layers, d, lambda a, b: core.as_term(a) == core.as_term(b), z3.BoolVal)
+        jc.prove(r, z3.And(*[t for _, t in props]), "ufo COLR layers: input order, palette index of the opaque colour, alpha in the paint, currentColor -> 0xFFFF, geometry and transform copied", inp, replay_ufo_layers, key="C01:ufo_layers")
     jc.expect_reached("ok")
 
 
